@@ -22,6 +22,8 @@ Reading guide
 -/
 import IrisVerif.Lemmas.ADRules
 import IrisVerif.Lemmas.ADMaps
+import IrisVerif.Lemmas.ADSystem
+import Mathlib.Analysis.Calculus.FDeriv.Prod
 
 namespace IrisVerif.C02
 open IrisVerif.AD IrisVerif.Gen
@@ -919,6 +921,190 @@ theorem terminalJacMap_mem (wrtSpots terminit : List Token) (e : Nat × Nat) (h 
   subst this
   exact ⟨hk, h2⟩
 
+/-! ### assembling the matrices: from the maps and the stacked AD output to the Jacobian entry (end to end) -/
+
+/-- the cell of the `k`-th wrt-token of equation `i` receives exactly that token's row of the stacked AD output -/
+theorem assembled_entry {α : Type} (cols : List (Option Token)) (t : List (List Token × Nat)) (hnd : ∀ p ∈ t, p.1.Nodup)
+    (td : Nat → Nat → α) (z : α) (i : Nat) (hi : i < t.length) (k : Nat) (hk : k < t[i].1.length) (hc : some t[i].1[k] ∈ cols) :
+    scatterAssign (staticMap cols t) td z i (cols.idxOf (some t[i].1[k])) = td (t[i].2 + k) 0 := by
+  have hm := staticMap_complete cols t i hi k hk hc
+  unfold scatterAssign
+  rw [foldl_assign td _ _ (td (t[i].2 + k) 0)]
+  · rw [if_pos ⟨_, hm, rfl, rfl⟩]
+  · intro en hen hcell
+    have := staticMap_cell_inj cols t hnd en _ hen hm (by simp [Entry.cell, hcell.1, hcell.2])
+    rw [this]
+
+/-- every other cell keeps the initial zero: a column that carries no token, or a token that is not in the equation's wrt-list -/
+theorem assembled_zero {α : Type} (cols : List (Option Token)) (t : List (List Token × Nat)) (td : Nat → Nat → α) (z : α)
+    (i c : Nat) (hi : i < t.length) (hc : ∀ τ, cols[c]? = some (some τ) → τ ∉ t[i].1) :
+    scatterAssign (staticMap cols t) td z i c = z := by
+  unfold scatterAssign
+  rw [foldl_assign td _ _ z]
+  · split <;> rfl
+  · intro en hen hcell
+    exfalso
+    obtain ⟨i', hi', k, hk, hm, rfl⟩ := staticMap_mem cols t en hen
+    obtain ⟨rfl, hcol⟩ := hcell
+    simp only at hcol
+    refine hc t[i'].1[k] ?_ (List.getElem_mem hk)
+    rw [← hcol]
+    exact List.getElem?_idxOf hm
+
+/-- **sparse (triplet) assembly = dense assembly** for the static maps: entries of one cell would add up, but no cell is addressed twice -/
+theorem scatterSum_eq_scatterAssign (cols : List (Option Token)) (t : List (List Token × Nat)) (hnd : ∀ p ∈ t, p.1.Nodup)
+    (td : Nat → Nat → ℝ) (r c : Nat) :
+    scatterSum (staticMap cols t) td 0 r c = scatterAssign (staticMap cols t) td 0 r c := by
+  unfold scatterSum
+  rw [foldl_sum]
+  have hnodup : ((staticMap cols t).filter (fun en => decide (en.lhsRow = r ∧ en.lhsCol = c))).Nodup :=
+    (staticMapAux_nodup cols 0 t).filter _
+  have hall : ∀ a ∈ (staticMap cols t).filter (fun en => decide (en.lhsRow = r ∧ en.lhsCol = c)),
+      ∀ b ∈ (staticMap cols t).filter (fun en => decide (en.lhsRow = r ∧ en.lhsCol = c)), a = b := by
+    intro a ha b hb
+    simp only [List.mem_filter, decide_eq_true_eq] at ha hb
+    exact staticMap_cell_inj cols t hnd a b ha.1 hb.1 (by simp [Entry.cell, ha.2.1, ha.2.2, hb.2.1, hb.2.2])
+  match hl : (staticMap cols t).filter (fun en => decide (en.lhsRow = r ∧ en.lhsCol = c)) with
+  | [] =>
+    rw [hl]
+    unfold scatterAssign
+    rw [foldl_assign td r c 0]
+    · simp
+    · intro en hen hcell
+      have : en ∈ (staticMap cols t).filter (fun en => decide (en.lhsRow = r ∧ en.lhsCol = c)) := by
+        simp [List.mem_filter, hen, hcell]
+      rw [hl] at this
+      simp at this
+  | [a] =>
+    have ha : a ∈ (staticMap cols t).filter (fun en => decide (en.lhsRow = r ∧ en.lhsCol = c)) := by rw [hl]; simp
+    simp only [List.mem_filter, decide_eq_true_eq] at ha
+    rw [hl]
+    unfold scatterAssign
+    rw [foldl_assign td r c (td a.rhsRow a.rhsCol)]
+    · rw [if_pos ⟨a, ha.1, ha.2⟩]; simp
+    · intro en hen hcell
+      have : en = a := hall en (by simp [List.mem_filter, hen, hcell]) a (by simp [List.mem_filter, ha.1, ha.2])
+      rw [this]
+  | a :: b :: rest =>
+    exfalso
+    rw [hl] at hnodup hall
+    have : a = b := hall a (by simp) b (by simp)
+    subst this
+    simp at hnodup
+
+/-- **End to end** (`systemize()` A, D, F, G, J — and B with the lagged columns): when `td` is the stacked output of the walk
+    (`adDiff`, system seeds), the assembled matrix entry in the row of equation `i` and the column of its wrt-token `τ = wrt_i[k]` is the
+    partial derivative of the equation's residual with respect to `τ` (with respect to `log τ` for a log-variable) at the evaluation point —
+    hypotheses on inputs only: duplicate-free wrt-lists, an admissible point -/
+theorem systemize_entry_sound (base : Nat → Int → ℝ) (logly : Nat → Bool) (ext : Fn1 → ℝ → ℝ)
+    (cols : List (Option Token)) (t : List (List Token × Nat)) (es : Nat → Expr ℝ) (td : Nat → Nat → ℝ)
+    (hnd : ∀ p ∈ t, p.1.Nodup)
+    (htd : ∀ i (hi : i < t.length) k, k < t[i].1.length → adDiff base logly ext (es i) t[i].1 k = some (td (t[i].2 + k) 0))
+    (i : Nat) (hi : i < t.length) (k : Nat) (hk : k < t[i].1.length) (hc : some t[i].1[k] ∈ cols)
+    (hadm : Admissible ⟨base, seedSystem t[i].1 k, logly, ext⟩ (es i)) :
+    HasDerivAt (fun u => eval ⟨perturb base logly (seedSystem t[i].1 k) u, seedSystem t[i].1 k, logly, ext⟩ (es i))
+      (scatterAssign (staticMap cols t) td 0 i (cols.idxOf (some t[i].1[k]))) 0 := by
+  rw [assembled_entry cols t hnd td 0 i hi k hk hc]
+  have h := htd i hi k hk
+  unfold adDiff at h
+  cases hr : adEquation ⟨base, seedSystem t[i].1 k, logly, ext⟩ (es i) with
+  | error e => rw [hr] at h; simp at h
+  | ok r =>
+    obtain ⟨v, d, hv, _, hd⟩ := adEquation_sound_unconditional base (seedSystem t[i].1 k) logly ext (es i) hadm r hr
+    rw [hr, hv] at h
+    simp only [Option.some.injEq] at h
+    rw [← h]
+    exact hd
+
+/-- the stacked AD output is indexed by `offset_i + k` with the offsets of `create_eid_to_rhs_offset`: row `Σ_{j<i} |wrt_j| + k` of
+    `adColumn` is the walk's derivative of equation `i` in direction `k` (this discharges `htd` for the model's own `systemAB`) -/
+theorem adColumn_getElem (base : Nat → Int → ℝ) (logly : Nat → Bool) (ext : Fn1 → ℝ → ℝ) (eqs : List (Expr ℝ × List Token))
+    (i : Nat) (hi : i < eqs.length) (k : Nat) (hk : k < eqs[i].2.length) :
+    (adColumn base logly ext eqs)[((eqs.take i).map (fun p => p.2.length)).sum + k]?
+      = some (adDiff base logly ext eqs[i].1 eqs[i].2 k) := by
+  unfold adColumn
+  have h := flatMap_getElem_offset
+    (fun p : Expr ℝ × List Token => (List.range p.2.length).map (fun j => adDiff base logly ext p.1 p.2 j)) eqs i hi k (by simpa using hk)
+  simp only [List.length_map, List.length_range] at h
+  rw [h]
+  simp [hk]
+
+/-! ### parameter variants: locality -/
+
+/-- `systemize()` of a model with several variants: output `k` is the single-variant computation applied to input variant `k` -/
+theorem systemizeVariants_getElem {V S : Type} (one : V → S) (vs : List V) (k : Nat) :
+    (systemizeVariants one vs)[k]? = vs[k]?.map one := by
+  simp [systemizeVariants]
+
+/-- **variant locality**: changing any OTHER variant (its parameters, its steady state) does not change output `k` — in particular no
+    variant is evaluated at variant 0's values -/
+theorem variant_locality {V S : Type} (one : V → S) (vs vs' : List V) (k : Nat) (h : vs[k]? = vs'[k]?) :
+    (systemizeVariants one vs)[k]? = (systemizeVariants one vs')[k]? := by
+  rw [systemizeVariants_getElem, systemizeVariants_getElem, h]
+
+theorem systemizeVariants_length {V S : Type} (one : V → S) (vs : List V) : (systemizeVariants one vs).length = vs.length := by
+  simp [systemizeVariants]
+
+/-! ### the evaluator object: every observation is the pure function of the point actually passed -/
+
+/-- **refinement to the stateless spec**: whatever the history of calls on one evaluator object (and whatever point it held before),
+    each `eval_func / eval_jacob / eval` returns the residual / Jacobian AT THE GUESS PASSED WITH THAT CALL -/
+theorem evRun_eq_pure {P F J : Type} (fn : P → F) (jac : P → J) (s : P) (ops : List (EvOp P)) :
+    evRun fn jac s ops = ops.map (fun op => observe fn jac op.guess op) := by
+  induction ops generalizing s with
+  | nil => rfl
+  | cons op ops ih => simp [evRun, evStep, ih]
+
+/-- the invariant a memo of the last guess must keep: the remembered guess IS the point the steady array holds -/
+def MemoInv {P : Type} (s : MemoState P) : Prop := ∀ g, s.last = some g → s.point = g
+
+theorem memoStep_inv {P F J : Type} [DecidableEq P] (fn : P → F) (jac : P → J) (s : MemoState P) (op : EvOp P)
+    (h : MemoInv s) : MemoInv (memoStep fn jac s op).1 := by
+  unfold memoStep
+  simp only
+  split
+  · exact h
+  · intro g hg
+    simp only [Option.some.injEq] at hg
+    exact hg
+
+/-- a memo kept BY VALUE is safe: under the invariant an evaluator that skips the update for an unchanged guess is observationally
+    the stateless spec for every history (a memo kept by reference breaks the invariant as soon as the caller updates the array in place) -/
+theorem memoRun_eq_pure {P F J : Type} [DecidableEq P] (fn : P → F) (jac : P → J) (s : MemoState P) (hs : MemoInv s)
+    (ops : List (EvOp P)) :
+    memoRun fn jac s ops = ops.map (fun op => observe fn jac op.guess op) := by
+  induction ops generalizing s with
+  | nil => rfl
+  | cons op ops ih =>
+    simp only [memoRun, List.map_cons]
+    rw [ih _ (memoStep_inv fn jac s op hs)]
+    congr 1
+    unfold memoStep
+    simp only
+    split
+    · rename_i hl
+      rw [hs _ hl]
+    · rfl
+
+/-! ### the terminal condition in matrix form -/
+
+/-- **`terminate_jacobian`**: when the periods after the last simulated one are a linear function `Φ` of the simulated unknowns
+    (`x_{T+k} = T^k x_T`, the rows of `[T; T²; …]` picked by `terminal_row_selection`), the Jacobian of the stacked residuals
+    `x ↦ G(x, Φ x)` is the plain Jacobian (derivative in the simulated unknowns) plus the terminal block (derivative in the terminal
+    spots) composed with `Φ` — `regular + terminal @ curr_TT`, the chain rule over `terminalJacMap` -/
+theorem terminal_chain_rule {E Z R : Type*} [NormedAddCommGroup E] [NormedSpace ℝ E] [NormedAddCommGroup Z] [NormedSpace ℝ Z]
+    [NormedAddCommGroup R] [NormedSpace ℝ R] (G : E × Z → R) (G' : E × Z →L[ℝ] R) (Φ : E →L[ℝ] Z) (x : E)
+    (hG : HasFDerivAt G G' (x, Φ x)) :
+    HasFDerivAt (fun y => G (y, Φ y))
+      (G'.comp (ContinuousLinearMap.inl ℝ E Z) + (G'.comp (ContinuousLinearMap.inr ℝ E Z)).comp Φ) x := by
+  have h := hG.comp x ((hasFDerivAt_id x).prodMk Φ.hasFDerivAt)
+  refine h.congr_fderiv ?_
+  ext v
+  simp only [ContinuousLinearMap.comp_apply, ContinuousLinearMap.prod_apply, ContinuousLinearMap.id_apply,
+    add_apply, ContinuousLinearMap.inl_apply, ContinuousLinearMap.inr_apply]
+  rw [← map_add]
+  simp
+
 /-! ### user context functions: the two-sided difference quotient (partial: only this much is proved) -/
 
 /-- the difference quotient of `finite_differentiators.py` is the exact derivative of every polynomial of degree ≤ 2, for any step -/
@@ -1026,6 +1212,16 @@ example : staticMap (laggedVector [(0, 1), (0, 0), (1, 0), (0, -1)]) [([(0, 0), 
 
 example : stackedMap [(0, 1), (1, 1), (0, 2), (1, 2)] [1, 2] [[(0, 0), (0, -1)], [(1, 0), (0, 0)]]
     = [⟨0, 0, 0, 0⟩, ⟨2, 2, 0, 1⟩, ⟨2, 0, 1, 1⟩, ⟨1, 1, 2, 0⟩, ⟨3, 3, 2, 1⟩, ⟨1, 0, 3, 0⟩, ⟨3, 2, 3, 1⟩] := by decide
+
+/-- assembly, variants, evaluator histories: concrete non-trivial instances -/
+example : scatterAssign (staticMap [some (0, 0), some (1, 0)] [([(1, 0), (0, 0)], 0)]) (fun r _ => (10 + r : Nat)) 0 0 0 = 11 := by decide
+
+example : systemizeVariants (fun p : Nat => p * p) [2, 3, 5] = [4, 9, 25] := by decide
+
+example : evRun (fun p : Nat => p) (fun p : Nat => 10 * p) 0 [.evalJacob 1, .evalFunc 2, .evalJacob 2, .evalBoth 3]
+    = [.jacob 10, .func 2, .jacob 20, .both 3 30] := by decide
+
+example : MemoInv (⟨7, some 7⟩ : MemoState Nat) := by intro g h; simp at h; exact h
 
 example : terminalSpots [5, 6] [0, 2] (fun q => if q = 0 then 2 else 1) 4 = [(0, (0, 5)), (1, (2, 5)), (2, (0, 6))] := by decide
 
